@@ -78,17 +78,28 @@ var (
 
 // RType maps a type id to its reflect.Type.
 func RType(t int) reflect.Type {
+	if t == TVoid {
+		return voidType
+	}
 	if t < NumConcrete {
 		return ConcreteTypes[t]
 	}
 	return ifaceTypes[t-NumConcrete]
 }
 
-func IsIface(t int) bool      { return t >= NumConcrete }
+func IsIface(t int) bool      { return t >= NumConcrete && t < NumTypes }
+
+// TVoid is the pseudo type id of struct{}: a named initializer function is a
+// keyed service of that type (godi stores an empty struct for it).
+const TVoid = NumTypes
+
+var voidType = reflect.TypeOf(struct{}{})
 func IsDisposable(t int) bool { return t < NumD }
 
 func TypeName(t int) string {
 	switch {
+	case t == TVoid:
+		return "void"
 	case t < NumD:
 		return fmt.Sprintf("D%d", t)
 	case t < NumConcrete:
